@@ -2,8 +2,8 @@
    dmrun p m ops   the digitalWrite / analogWrite / delay events and getter values of the generated firmware (Device/DMotor.v)
    hmrun p m ops   the host class's level signal on the same three pins (direction from the sign of the applied speed,
                    duty = nearest PWM count of 255*|applied|, sleeps truncated to whole ms), its getter values *)
-From Coq Require Import ZArith QArith List Bool.
-From RV Require Import Base.Wire Base.NumM Host.DCMotor Device.Signal Device.DLed Device.DMotor Proofs.DMotorP.
+From Coq Require Import ZArith QArith Qabs List Bool.
+From RV Require Import Base.Wire Base.NumM Host.DCMotor Device.Signal Device.DLed Device.DMotor Proofs.DMotorP Proofs.DMotorSimP.
 Import ListNotations.
 
 (* clamp clause, for ALL commands, values and histories: every analogWrite duty is within 0..255 *)
@@ -26,10 +26,39 @@ Theorem C04_motor_tiny_speed_signal_refuted : exists p m ops,
 Proof. exists (4, 5, 6)%Z, (m0 (4, 5, 6)%Z), tiny_ops. exact motor_tiny_signal_differs. Qed.
 Print Assumptions C04_motor_tiny_speed_signal_refuted.
 
-(* non-vacuity: an in-guard history through every command on which signal and getters agree *)
+(* non-vacuity of the guard of C04_motor_partial: an in-guard history through every command *)
 Example C04_motor_guard_inhabited :
   forallb (fun b => b) (motor_guard_flags (m0 (4, 5, 6)%Z) demo_ops) = true /\
   canon (map dconv (fst (dmrun (4, 5, 6)%Z dminit demo_ops))) = canon (fst (fst (hmrun (4, 5, 6)%Z (m0 (4, 5, 6)%Z) demo_ops))) /\
   snd (fst (hmrun (4, 5, 6)%Z (m0 (4, 5, 6)%Z) demo_ops)) = snd (dmrun (4, 5, 6)%Z dminit demo_ops).
 Proof. exact motor_demo_agrees. Qed.
 Print Assumptions C04_motor_guard_inhabited.
+
+(* C04_motor_partial: device = host for ALL motor commands (set_speed, backward, stop, coast, invert, ramp, run_for, the four
+   getters) and all histories inside the guard motor_guard_flags: speeds numbers within -1..1, durations numbers >= 0, and no
+   speed the command applies has 0 < |x| < 1/510 (the refutations above show this conjunct is needed).  Then the firmware's
+   digitalWrite / analogWrite / delay events ARE, event by event, the host's level signal on the three pins - direction pins from
+   the sign of the applied speed (brake: both HIGH), duty = the PWM count nearest to 255*|applied| (C04_motor_duty_nearest: within
+   half a count, the statement allows one), each host sleep q as delay(trunc q) (C04_motor_delay_within_1ms) - every getter
+   returns the host's value, and no host call raises. *)
+Theorem C04_motor_partial : forall p ops,
+  forallb (fun b => b) (motor_guard_flags (m0 p) ops) = true ->
+  map dconv (fst (dmrun p dminit ops)) = fst (fst (hmrun p (m0 p) ops)) /\
+  snd (dmrun p dminit ops) = snd (fst (hmrun p (m0 p) ops)) /\
+  snd (hmrun p (m0 p) ops) = true.
+Proof. exact motor_device_eq_host. Qed.
+Print Assumptions C04_motor_partial.
+
+Theorem C04_motor_duty_nearest : forall ap, (-(1) <= ap <= 1)%Q -> (Qabs (inject_Z (hduty ap) - 255 * qabs ap) <= 1 # 2)%Q.
+Proof. exact hduty_nearest. Qed.
+Print Assumptions C04_motor_duty_nearest.
+
+Theorem C04_motor_delay_within_1ms : forall q, (0 <= q)%Q -> (0 <= q - inject_Z (ctrunc q))%Q /\ (q - inject_Z (ctrunc q) < 1)%Q.
+Proof. exact ctrunc_within_ms. Qed.
+Print Assumptions C04_motor_delay_within_1ms.
+
+(* inside the guard every host sleep is >= 0 ms, so C04_motor_delay_within_1ms applies to every delay of the signal *)
+Theorem C04_motor_sleeps_nonneg : forall m o, motor_in_range m o = true ->
+  Forall (fun q => (0 <= q)%Q) (sleeps (mevents (mstep m o))).
+Proof. exact motor_sleeps_nonneg. Qed.
+Print Assumptions C04_motor_sleeps_nonneg.
